@@ -25,6 +25,10 @@ from pyvc.run import verify_module  # noqa: E402
 
 # the interpreter that has the repository's dependencies; overridable for environments where /venv is unusable
 VENV_PY = os.environ.get("VERIF_NATIVE_PY", "/venv/bin/python")
+if not os.path.exists(os.path.realpath(VENV_PY)) and os.path.exists("/opt/devshim/py312"):
+    # development sandbox only: the 3.12 interpreter behind /venv was lost; an equivalent 3.11-based runtime stands in.
+    # (recorded as native_python in the evidence; in an intact sandbox /venv/bin/python is used)
+    VENV_PY = "/opt/devshim/py312"
 
 
 def sanitize(s):
@@ -208,8 +212,26 @@ def main():
             still_undecided.append(v)
             lines.append(f"UNDECIDED property={pid} obligation={v['oid']} reason=solver:{','.join(sorted(set(v['results'])))}")
     undecided = still_undecided
+    still_units = []
     for u in undec_units:
-        lines.append(f"UNDECIDED property={pid} obligation={u['unit']}/* reason={u['reason']}")
+        # the function left the verifier's subset (or was not found): no proof either way.  The native driver may still
+        # demonstrate a violation of the unit's contract on the real code; only then is it reported as one.
+        rp = os.path.join(HERE, "replay", pid, sanitize(u["unit"]) + "_undecided.json")
+        payload = {"property": pid, "obligation": u["unit"] + "/*", "unit": u["unit"], "kind": "undecided-unit", "solver": "no VC generated: " + u["reason"],
+                   "model": None, "repo": repo, "native": None}
+        json.dump(payload, open(rp, "w"), indent=1, default=str)
+        h = run_harness(pid, "replay", rp, repo, seed)
+        if h and h["rc"] == 1:
+            payload = json.load(open(rp))
+            payload["native"] = h
+            json.dump(payload, open(rp, "w"), indent=1, default=str)
+            violations += 1
+            lines.append(f"VIOLATION property={pid} replay={rp}")
+            lines.append(f"  {u['unit']} is outside the verifier's subset ({u['reason']}); the native driver found an input on which the real code breaks its contract")
+        else:
+            still_units.append(u)
+            lines.append(f"UNDECIDED property={pid} obligation={u['unit']}/* reason={u['reason']}")
+    undec_units = still_units
     # --- bounded stand-ins and run-time cross-check (never counted as proved) ------------------------
     bounded = None
     cross = None
